@@ -30,7 +30,7 @@ from typing import Any
 from bzrformats import generate_ids, inventory, multiparent
 from bzrformats.errors import BadFileKindError as _BzrFormatsBadFileKindError
 from bzrformats.inventory import NoSuchId
-from dromedary.errors import NoSuchFile
+from dromedary.errors import NoSuchFile, NotADirectory
 from dromedary.local import file_kind
 
 from .. import (
@@ -1667,11 +1667,17 @@ class InventoryTreeTransform(DiskTreeTransform):
         except KeyError:
             return
         try:
-            children = os.listdir(self._tree.abspath(path))
+            children = set(os.listdir(self._tree.abspath(path)))
         except (NotADirectoryError, FileNotFoundError):
-            return
+            children = set()
+        # Versioned children that are missing from disk still occupy their
+        # names in the inventory.
+        try:
+            children.update(e.name for e in self._tree.iter_child_entries(path))
+        except (NoSuchFile, NotADirectory):
+            pass
 
-        for child in children:
+        for child in sorted(children):
             childpath = joinpath(path, child)
             if self._tree.is_control_filename(childpath):
                 continue
